@@ -148,6 +148,11 @@ func lineSearch(f objective,
     // decrease alpha_j until constraints are satisfied
     for !constraints(alpha_j) {
       verifhook.Tick("lineSearch.constraints")
+      // no step satisfies the constraints (not even the step of length
+      // zero), or the step length is not a number
+      if alpha_j == 0.0 || math.IsNaN(alpha_j) {
+        return 0.0, fmt.Errorf("line search failed: constraints cannot be satisfied")
+      }
       alpha_j *= 0.5
     }
     yj, gj, err = f(alpha_j)
